@@ -337,7 +337,7 @@ def arg_normalise(check: Check, repo: Repo) -> None:
     rec_field = any(isinstance(x, ast.Call) and call_name(x) == "sort_value_node" for x in walk_body(sf))
     sfs = repo.func("utilities.sort_value_node", "sort_fields")
     uses_sort_field = any(isinstance(x, ast.Call) and call_name(x) == "sort_field" for x in ast.walk(sfs)) and any(
-        isinstance(x, ast.Call) and call_name(x) == "sorted" for x in ast.walk(sfs))
+        isinstance(x, ast.Call) and (call_name(x) == "sorted" or (isinstance(x.func, ast.Attribute) and x.func.attr == "sort")) for x in ast.walk(sfs))
     check.ob(rule, sv, "sort_value_node handles objects and lists recursively", ok and rec_list and rec_field and uses_sort_field,
              f"isinstance arms {sorted(tested)}; list recursion {rec_list}; field recursion {rec_field}; fields sorted {uses_sort_field}")
     check.floor(rule, 2, "print_ast calls in the rule")
@@ -579,8 +579,27 @@ def every_field_recorded(check: Check, repo: Repo, rule: str = "FIELDS-RECORDED"
     anchor = arm if isinstance(arm, ast.stmt) else loops[0]
     arm = _Arm  # type: ignore[assignment]
     cfg = CFG(fn)
+    # locals of the arm that hold a list of the map: bound only from node_and_defs.get(k) / node_and_defs[k] / a chained store into node_and_defs[k]
+    holders: set[str] = set()
+    for s_ in arm.body:
+        for a_ in ast.walk(s_):
+            if isinstance(a_, ast.Assign) and any(isinstance(t, ast.Name) for t in a_.targets):
+                chained = any(isinstance(t, ast.Subscript) and unparse(t.value) == "node_and_defs" for t in a_.targets)
+                from_map = any(isinstance(x, (ast.Call, ast.Subscript)) and unparse(x).startswith(("node_and_defs.get(", "node_and_defs.setdefault(", "node_and_defs["))
+                               for x in [a_.value])
+                for t in a_.targets:
+                    if isinstance(t, ast.Name):
+                        if chained or from_map:
+                            holders.add(t.id)
+    for s_ in arm.body:  # a holder rebound from anything else is no holder
+        for a_ in ast.walk(s_):
+            if isinstance(a_, ast.Assign):
+                chained = any(isinstance(t, ast.Subscript) and unparse(t.value) == "node_and_defs" for t in a_.targets)
+                from_map = unparse(a_.value).startswith(("node_and_defs.get(", "node_and_defs.setdefault(", "node_and_defs["))
+                if not (chained or from_map):
+                    holders -= {t.id for t in a_.targets if isinstance(t, ast.Name)}
     appends = [c for s in arm.body for c in ast.walk(s) if isinstance(c, ast.Call) and isinstance(c.func, ast.Attribute) and c.func.attr == "append"
-               and "node_and_defs" in unparse(c.func.value)]
+               and ("node_and_defs" in unparse(c.func.value) or (isinstance(c.func.value, ast.Name) and c.func.value.id in holders))]
     if not appends:
         check.ob(rule, anchor, "FieldNode arm records the field", False, "no append to node_and_defs[...] in the FieldNode arm")
         return
@@ -668,5 +687,7 @@ def shared_map_reads(check: Check, repo: Repo, rule: str = "SHARED-MAP-READS") -
             check.ob(rule, x, f"{qualname_of(x)}: read `{m}[{k}]`", stored or present,
                      ("stored by this function before the read" if stored else "key known to be present") if stored or present else
                      f"bare subscript read of a shared field map: use {m}.get({k})")
-    if n < 2:
+    builds = sum(1 for fn in mod.functions() if not isinstance(fn, ast.Lambda) for s in walk_body(fn)
+                 if isinstance(s, ast.AnnAssign) and isinstance(s.target, ast.Name) and "NodeAndDefCollection" in unparse(s.annotation) and s.value is not None)
+    if builds < 1:  # bare reads may legitimately be absent; the construction of a field map is the anchor
         raise AnalysisError("SHARED-MAP-READS: field maps not found")
